@@ -156,7 +156,7 @@ Print Assumptions c13_collector_backed.
 (* ---- inside the classes the clause is false: witnesses (replayed on the real keepers by the
    harness's directed cases) ---- *)
 
-(* C13-F1 (repaired in /repo, fix: PENDING): a generation-2 dutch close pays a 120000 penalty in the
+(* C13-F1 (repaired in /repo, fix: f6e2316): a generation-2 dutch close pays a 120000 penalty in the
    debt denom (asset 3); it is now booked under the debt asset, so the former witness is backed *)
 Example c13_penalty_regression :
   forallb valid_op ex_kf1_ops = true /\ forallb kf_free ex_kf1_ops = true /\
